@@ -1092,6 +1092,13 @@ def multiply_value(d):
     raise ValueError(k)
 
 
+def _positional(d):
+    """Deterministic per description: call the constructor with positional arguments (in the
+    documented order) instead of keywords."""
+    return (sum(map(int, d.get("ishape", []))) + sum(map(int, d.get("oshape", [])))
+            + len(d.get("parts", []))) % 2 == 0
+
+
 def build(d):
     """Description -> real sigpy operator (raises whatever the constructor raises)."""
     import sigpy as sp
@@ -1204,10 +1211,17 @@ def build(d):
     if op == "Sub":
         return parts[0] - parts[1]
     if op == "Hstack":
+        # (documented signatures called positionally for half of the descriptions)
+        if _positional(d):
+            return L.Hstack(parts, d["axis"])
         return L.Hstack(parts, axis=d["axis"])
     if op == "Vstack":
+        if _positional(d):
+            return L.Vstack(parts, d["axis"])
         return L.Vstack(parts, axis=d["axis"])
     if op == "Diag":
+        if _positional(d):
+            return L.Diag(parts, d["oaxis"], d["iaxis"])
         return L.Diag(parts, oaxis=d["oaxis"], iaxis=d["iaxis"])
     raise ValueError("unknown op " + op)
 
